@@ -114,7 +114,7 @@ def _work(pid, ob, conn):
             res.update(main)
             tw = None
             if main["verdict"] == "confirmed":
-                tw = engine.analyze(mod, g, min(60, ob["budget"]), twin=True)
+                tw = engine.analyze(mod, g, ob.get("twin_budget", min(60, ob["budget"])), twin=True)
                 ok = False
                 if tw["verdict"] == "refuted" and tw["cex"] is not None:
                     ok = replay_body(pm, ob, tw["cex"]) is None
@@ -283,6 +283,14 @@ def check(pid, tier, seed, only=None):
         v = r.get("verdict")
         if v == "confirmed":
             tw = r.get("twin")
+            if tw is not None and not tw.get("replayed_ok") and tw.get("verdict") in ("pre_unsat", "inconclusive"):
+                # the twin ran out of its (short) budget before one path reached the end: reachability is not shown, which is
+                # not evidence of vacuity (a vacuous precondition makes the main run pre_unsat too, not confirmed)
+                r["verdict"] = "inconclusive"
+                r["detail"] = "confirmed, but the reachability twin did not finish a path within its budget"
+                n["inconclusive"] += 1
+                inconc.append(oid)
+                continue
             if tw is not None and not tw.get("replayed_ok"):
                 harness_err.append("%s: reachability twin failed (%s)" % (oid, tw.get("verdict")))
                 r["verdict"] = v = "error"
